@@ -159,6 +159,15 @@ func writeFail(unit string, raw []byte, err string) string {
 func safeRun[C any](run func(C) Result, c C) (r Result) {
 	defer func() {
 		if p := recover(); p != nil {
+			msg := fmt.Sprint(p)
+			// the harness's own sockets: the operating system ran out of a resource (ports in TIME_WAIT, descriptors);
+			// that says nothing about the code under test
+			for _, infra := range []string{"bind: address already in use", "cannot assign requested address", "too many open files", "no buffer space available"} {
+				if strings.Contains(msg, infra) {
+					r = Result{Inconcl: "harness could not get a socket: " + infra}
+					return
+				}
+			}
 			r = Result{Err: fmt.Sprintf("panic: %v\n%s", p, trimStack(debug.Stack()))}
 		}
 	}()
